@@ -28,7 +28,10 @@ def run(ctx):
     R3 = rep.rule('C14.R3', 'Record::insert_* inserts only for the recording cache (reloader pointer equality)', floor=3)
     R4 = rep.rule('C14.R4', 'the outer asset depends on the nested asset: the asset record dominates the nested load; nested recording iff hot-reloaded and reloader present', floor=4)
     R5 = rep.rule('C14.R5', 'who-may-record: insert_* <- add_*record <- Cache impl only', floor=6)
+    R6 = rep.rule('C14.R6', 'a file dependency is (id, ext) in that order on the recording side and on the event side', floor=4)
     for cfg, F in ctx.hr_cfgs():
+        r6(R6, cfg, F)
+        R6.finish_cfg(cfg)
         r1(R1, cfg, F)
         nesting_discipline(R2, cfg, F)
         r3(R3, cfg, F)
@@ -182,3 +185,72 @@ def r5(R5, cfg, F):
             R5.check(ok, cfg, cb.path, 'records-into-current-thread-recorder', '%s must add to the recorder found in this thread\'s RECORDING cell' % add, cb.loc())
         else:
             R5.missing(cfg, REC + add + '::{closure#0}')
+
+
+def r6(R6, cfg, F):
+    """Dependency::File(id, ext): both components are SharedStrings, so swapping them type-checks and makes every
+    look-up of a notified file miss."""
+    b = F.body(REC + 'Record::insert_file')
+    if not b:
+        R6.missing(cfg, 'Record::insert_file')
+    else:
+        ag = [s for _, _, s in b.assigns() if s['rv']['k'] == 'aggregate' and s['rv'].get('adt') == REC + 'Dependency' and s['rv'].get('variant_name') == 'File']
+        ok = len(ag) == 1 and [b.origins(o) for o in ag[0]['rv']['ops']] == [{('arg', 3)}, {('arg', 4)}]
+        sig = F.fns.get(b.path, {})
+        R6.check(ok, cfg, b.path, 'File(id,ext)=(arg id, arg ext)', 'insert_file(reloader, id, ext) must record Dependency::File(id, ext) in that order', b.loc())
+    cb = F.body(REC + 'add_file_record::{closure#0}')
+    ob = F.body(REC + 'add_file_record')
+    if not cb or not ob:
+        R6.missing(cfg, 'add_file_record')
+    else:
+        call = [c for c in cb.calls() if c.callee and c.callee.best == REC + 'Record::insert_file']
+        lit = [s for _, _, s in ob.assigns() if s['rv']['k'] == 'aggregate' and s['rv'].get('closure') == cb.path]
+        ok = len(call) == 1 and len(lit) == 1
+        if ok:
+            from common import make_pt
+            pt = make_pt(r'Into<U>>::into$')
+            ups = [cb.origins(call[0].args[i], passthrough=pt) for i in (1, 2, 3)]
+            caps = [ob.origins(o) for o in lit[0]['rv']['ops']]
+            def cap_of(u):
+                u = list(u)
+                return caps[u[0][1]] if len(u) == 1 and u[0][0] == 'upvar' and u[0][1] < len(caps) else None
+            ok = [cap_of(u) for u in ups] == [{('arg', 1)}, {('arg', 2)}, {('arg', 3)}]
+        R6.check(ok, cfg, ob.path, 'passes-(reloader,id,ext)-in-order', 'add_file_record(reloader, id, ext) must hand (reloader, id, ext) to insert_file in that order', ob.loc())
+    rb = F.body('<T as anycache::Cache>::read')
+    if rb:
+        ar = [c for c in rb.calls() if c.callee and c.callee.best == REC + 'add_file_record']
+        sr = [c for c in rb.calls() if c.callee and c.callee.defp == 'source::Source::read']
+        ok = len(ar) == 1 and len(sr) == 1 and [rb.access_path(a) for a in ar[0].args[1:3]] == [['arg2'], ['arg3']] and [rb.access_path(a) for a in sr[0].args[1:3]] == [['arg2'], ['arg3']]
+        R6.check(ok, cfg, rb.path, 'records-(id,ext)-as-read', 'Cache::read(id, ext) must record and read (id, ext) in the same order', rb.loc())
+    ab = F.body('source::OwnedDirEntry::as_dependency')
+    if not ab:
+        R6.missing(cfg, 'OwnedDirEntry::as_dependency')
+    else:
+        sw = ab.primary_switch(1)
+        oadt, badt = F.adt('source::OwnedDirEntry'), F.adt(REC + 'BorrowedDependency')
+        ok = sw is not None and oadt is not None
+        pairs = []
+        if ok:
+            for v in oadt['variants']:
+                t_ = ab.variant_edge(sw, v['idx'])
+                ags = [s for s in ab.blocks[t_]['stmts'] if s['k'] == 'assign' and s['place']['l'] == 0 and s['rv']['k'] == 'aggregate']
+                if len(ags) != 1:
+                    ok = False
+                    continue
+                fields = []
+                for o in ags[0]['rv']['ops']:
+                    l = o['place']['l']
+                    fld = None
+                    for d in ab.defs_of(l):
+                        if d[0] == 'stmt' and d[3]['rv']['k'] == 'ref':
+                            src = d[3]['rv']['place']
+                            if src['l'] != 1:
+                                for d2 in ab.defs_of(src['l']):
+                                    if d2[0] == 'stmt' and d2[3]['rv']['k'] == 'ref':
+                                        src = d2[3]['rv']['place']
+                            fs = [e for e in src['p'] if isinstance(e, dict) and 'f' in e]
+                            fld = fs[-1]['f'] if fs else None
+                    fields.append(fld)
+                pairs.append((v['name'], ags[0]['rv'].get('variant_name'), fields))
+            ok = ok and all(a == b_ and f == list(range(len(f))) for a, b_, f in pairs) and len(pairs) == len(oadt['variants'])
+        R6.check(ok, cfg, ab.path, 'event-entry->same-variant-same-field-order', 'a notified entry must be looked up as the dependency of the same kind with (id, ext) in the same positions; mapping %s' % pairs, ab.loc())
